@@ -13,18 +13,32 @@ from vfw import refs
 from vfw.stream import Stream, affine_probe
 
 PROPERTY = "C06"
-RULE = ("cells = interface x sampler x size x #likelihoods x model backing x likelihood Gaussian form; inside a cell "
-        "every prior form (16 Gaussian input forms x 3 mean kinds, GMRF orders 0-2) is crossed with two current states and "
-        "the complete perturbation basis; non-trivial = sampler accepted the posterior and the linear part is non-zero")
+RULE = ("cells = interface x sampler x size x #likelihoods (1-4, equal and unequal numbers of observations) x model backing x "
+        "likelihood Gaussian form; inside a cell every prior form (16 Gaussian input forms x 3 mean kinds, 1-D GMRF orders 0-2) is "
+        "crossed with two or three current states and the complete perturbation basis; GMRF-pair cells = interface x N x order x "
+        "construction order x #likelihoods x backing x likelihood form: a zero-boundary GMRF on a 1-D grid of N*N nodes and one on an "
+        "N x N image are built in ONE process (either one first; decoy fields of the same dimension with another boundary condition / "
+        "another order and a 1-D field of N nodes are built in between) and BOTH are then probed with the complete perturbation basis "
+        "from two current states; non-trivial = sampler accepted the posterior and the linear part is non-zero")
 BOUND = {"quick": "sizes (m,n) in {(3,3),(2,3)} + (3,76) above the sparse-storage switch + (30,40) with a GMRF prior (many inner iterations); 1-2 likelihoods "
+                  "(all 16 noise forms) and 3-4 likelihoods (size (2,3), dense noise forms + scalar covariance, reduced prior-form subset incl. GMRF) "
                   "of equal and of different sizes; current states: origin, near, far (2^22 x catalogue vector); matrix- and function-backed models; both interfaces + "
-                  "5-tuple form; UGLA: 2 sizes x location {0, scalar, vector} x scale {1, 0.25}",
-         "thorough": "sizes {(2,3),(3,3),(4,2)}; 1-3 likelihoods; all catalogues of the seed; UGLA with 3 beta values"}
+                  "5-tuple form; GMRF pairs (1-D N*N nodes / N x N image, zero boundary, orders 0-2, both construction orders): N=2 with 1 and 3 "
+                  "likelihoods x 2 backings x 2 noise forms, N=3 with 1 likelihood; UGLA: 2 sizes x location {0, scalar, vector} x scale {1, 0.25}",
+         "thorough": "sizes {(2,3),(3,3),(4,2)}; 1-4 likelihoods (equal and different sizes, all noise forms, all prior forms); GMRF pairs N=2 with 1-4 and N=3 "
+                     "with 1 and 3 likelihoods x 8 noise forms; all catalogues of the seed; UGLA with 3 beta values"}
 ASSUMPTIONS = [
     "inner solver run to convergence (maxit=400, tol=1e-13) - results compared at 1e-7; draws from the far current state "
     "(norm R ~ 1e7..1e8) are compared with those from the origin at 1e3*tol*R (the stopping rule is relative to the initial residual)",
     "matrix square roots are passed as symmetric roots, for which the R R^T / R^T R conventions coincide "
     "(the convention question is decided in C04/C05)",
+    "GMRF reference precision: prec * D^T D with the 1-D difference matrix of the order (identity for order 0), on an N x N image "
+    "prec * (D1^T D1 + D2^T D2) with D1 = I (x) D, D2 = D (x) I (vfw.refs.fd_ref; the operators themselves are decided in C20); on an image "
+    "geometry the library hands the model an N x N array, so the 2-D member of a pair always uses a function-backed model acting on "
+    "the flattened image (a matrix-backed model on an image geometry is refused by the library's model layer - not C06's subject); "
+    "only zero-boundary fields are probed (the library documents RTO with periodic/Neumann fields as inexact), the others serve as decoys",
+    "GMRF-pair cells report ONE signature per interface and order whichever member is inexact: with process-wide state in the "
+    "library the member that goes wrong may depend on what the worker process built before, the verdict of the cell does not",
     "UGLA: the documentation does not say whether the weights are evaluated at D x_k or D (x_k - location); either "
     "reading is accepted but mean and covariance must be those of ONE Gaussian",
 ]
@@ -100,8 +114,8 @@ def cells(tier, seed):
                     for nl in ((1, 3) if tier == "quick" else (1, 2, 3, 4)):
                         for backing in ("matrix", "function"):
                             for lik in ((("cov", "scalar"), ("prec", "dense")) if tier == "quick" else [(p, kd) for p in PARAMS for kd in ("scalar", "dense")]):
-                                if N == 3 and (nl > 1 or lik[1] == "dense") and (tier == "quick" or nl in (2, 4)):
-                                    continue
+                                if N == 3 and (nl > 1 or lik[1] == "dense" if tier == "quick" else nl in (2, 4)):
+                                    continue      # 3 x 3 image: quick = one likelihood with scalar noise; thorough = 1 and 3 likelihoods
                                 yield {"sampler": "RTO", "pair": True, "iface": iface, "N": N, "order": order, "first": first, "m": 3,
                                        "nlik": nl, "backing": backing, "lik": list(lik), "cat": k, "tier": tier,
                                        "msizes": [3, 4, 2, 1][:nl]}
@@ -294,10 +308,9 @@ def eval_gmrf_pair(cell):
             why = "linear part does not reproduce the posterior covariance"
         elif not (close(z0b, z0, tol_st, atol=tol_st) and close(Tb, T, tol_st, atol=tol_st)):
             why = "draw depends on the current state"
-        res.outcomes.add("gmrf-%s,order=%d:%.4g:%s" % (layout, order, float(z0[0]), why is None))
-        if why is not None:
-            bad.append((layout, why))
-        # stacked operator: adjoint is the exact transpose of the forward action
+        # stacked operator: adjoint is the exact transpose of the forward action (reported on its own: an operator whose two
+        # actions disagree cannot give exact draws, the consequences are not reported a second time)
+        adj_ok = True
         try:
             M = s0.M
             if callable(M):
@@ -308,10 +321,14 @@ def eval_gmrf_pair(cell):
                 F, G = Md, Md.T
             res.transitions += n + nd
             if not close(F, G.T, 1e-10):
-                res.fail("C06|%s|stacked-adjoint|prior=GMRF-%s" % (comp, layout), "stacked operator's adjoint is not the transpose of its forward action",
+                adj_ok = False
+                res.fail("C06|%s|stacked-adjoint|backing=%s" % (comp, backing if layout == "1d" else "function"), "stacked operator's adjoint is not the transpose of its forward action",
                          focus={"layout": layout})
         except AttributeError:
             pass
+        res.outcomes.add("gmrf-%s,order=%d:%.4g:%s" % (layout, order, float(z0[0]), why is None))
+        if why is not None and adj_ok:
+            bad.append((layout, why))
         if res.sample is None:
             res.sample = {"layout": layout, "order": order, "offset": z0, "posterior_mean": mean_ref, "TTt": T @ T.T, "posterior_cov": cov_ref}
     if bad:
